@@ -101,7 +101,8 @@ the four laws; VIOLATION … no-failing-input-found): (14) winner_idx "conflict"
 `this_name is None` override (C7: on some seeds only — it shows in the tree only through the parent of a file THIS
 deleted and OTHER renamed below a directory).  Not detectable (dead in practice): (9) the exec fallback
 `elif this_path is not None` (only reached after a contents conflict, where final_kind is None).
-Harmless rewrite kept clean: resolver(*names) spelled out and reordered.
+Harmless rewrites kept clean: resolver(*names) spelled out and reordered; the copy block's executable3 unpacked into
+three names first.
 """
 import os
 import shutil
